@@ -376,7 +376,17 @@ def p_tweak_formula(c):
     t = int.from_bytes(tagged(b"TapTweak", p.x.num.to_bytes(32, "big") + root), "big")
     even = p if p.y.num % 2 == 0 else (N - 1) * p
     want = even + (t % N) * G
-    return q == want, tok_pt(q), tok_pt(want)
+    if q != want:
+        return False, tok_pt(q), tok_pt(want)
+    # the secondary entry points that take the tweak itself (tweaked_key(tweak=…), p2tr_script(tweak=…)) must give
+    # the same output key — the internal key may have odd Y (PrivateKey(d).point), BIP341 lifts it first
+    tw = tagged(b"TapTweak", p.x.num.to_bytes(32, "big") + root)
+    q2 = p.tweaked_key(tweak=tw)
+    if q2 != want:
+        return False, "tweaked_key(tweak=): " + tok_pt(q2), tok_pt(want)
+    spk = [c_ for c_ in p.p2tr_script(tweak=tw).commands]
+    want_spk = [0x51, want.x.num.to_bytes(32, "big")]
+    return spk == want_spk, "p2tr_script(tweak=): " + repr(spk), repr(want_spk)
 
 
 def p_priv_tweak(c):
